@@ -23,6 +23,24 @@ CHECKS = {
         "slice, negative index, filter): every reported path must equal the RFC 2.7 normalized path of the node identified by address, equal paths iff equal nodes, and each "
         "reported path re-run as a query must return exactly that node with that path.",
    design="4.C03 / 2", note=BFS_NOTE, technique="explicit-state BFS of the nodelist transition system with a normalized-path oracle and a re-query round trip per reported path"),
+ "C04": dict(
+   text="Exhaustive table: every ordered pair of values of a fixed universe (all JSON types, integer/float spellings of equal numbers, strings that order differently by code point and UTF-16, "
+        "structurally equal containers with different number representations or member order, and 'nothing') x six operators x operand forms (member, bracket name, index, root query, "
+        "literal on either side, value()/length()/count() results), each cell decided by a real filter query and compared with the RFC 2.3.5.2.2 comparison of the reference model; "
+        "plus the algebraic laws (!= vs ==, <= vs < or ==, mirror, trichotomy) checked on the observed truth values independently of the model.",
+   design="4.C04", note="trusted base: the comparison function of the reference model (validated against the RFC 9535 2.3.5.3 comparison table at start-up); universe restricted to finite numbers within +-(2^53-1)",
+   technique="exhaustive enumeration of the finite comparison table (all value pairs x operators x operand forms) against a reference model, plus model-independent algebraic laws"),
+ "C11": dict(
+   text="Exhaustive cube: every (start, end, step) over absent / every integer of a range / the I-JSON extremes, times every array length up to a bound, in five contexts (root, below a name, "
+        "below a wildcard, under a descendant segment, non-array targets), through the parser and through programmatically built queries; expected index sequence from the RFC 2.3.4.2.2 "
+        "pseudo-code transcribed with 128-bit arithmetic; node identity, order and path compared; per-case wall-clock horizon for termination.",
+   design="4.C11", note="trusted base: slice_indices in the reference model (literal transcription of the RFC pseudo-code, checked against the RFC slice examples at start-up); bounds: parameter range and array lengths in the evidence file",
+   technique="exhaustive enumeration of the slice/index parameter cube x array lengths x contexts against the RFC pseudo-code"),
+ "C14": dict(
+   text="Exhaustive table: every first argument of a value universe x every second argument (all arrays up to a length over an element set including nested and empty containers, non-arrays, "
+        "missing) x the five functions x argument forms (@, @.x, bracketed with blanks, negated, literal), decided by real filter queries and compared with the set-membership definition in the property.",
+   design="4.C14", note="trusted base: the 20-line set-semantics oracle in mc/src/checks/ext.rs; element equality only between values where structural equality and RFC == coincide",
+   technique="exhaustive enumeration of the finite argument table of the five extension functions against a set-semantics oracle"),
 }
 
 checks = []
